@@ -1,6 +1,6 @@
 (* Driver for the extracted C04 scope-analysis model.
    stdin lines:  run <id> <strict 0|1> <sexp>      sexp = list of statement nodes, node = (tag field ...)
-   stdout:       <id>\tok\t<scope>;<scope>;...\t<honest>\t<wf>\t<ev_ok>\t<occ_ok>\t<reach_ok>
+   stdout:       <id>\tok\t<scope>;<scope>;...\t<honest>\t<wf>\t<ev_ok>\t<occ_ok>\t<reach_ok>\t<sem_hyp>
                  scope = uid outer|- is_function [name flag_bits]*      (flag bits as in scope.rs BindingFlags)
    The S-expression reader, the node decoder and the printer are the only hand-written OCaml in the model path. *)
 open C04_model
@@ -39,6 +39,7 @@ let n_of_int (i : int) : n = if i = 0 then N0 else Npos (pos_of_int i)
 let rec int_of_pos = function XH -> 1 | XO p -> 2 * int_of_pos p | XI p -> 2 * int_of_pos p + 1
 let int_of_n = function N0 -> 0 | Npos p -> int_of_pos p
 let rec int_of_nat = function O -> 0 | S k -> 1 + int_of_nat k
+let nat_of_int (i : int) : nat = let rec go acc k = if k = 0 then acc else go (S acc) (k - 1) in go O i
 
 let b = function A 0 -> false | A _ -> true | _ -> failwith "bool"
 let nm = function A i -> n_of_int i | _ -> failwith "name"
@@ -93,10 +94,36 @@ let print_scope buf uid (s : scope) =
 
 let bs x = if x then "1" else "0"
 
+(* operand expressions of Deep2_C04: (0) literal  (1) this  (2 x) local x  (3 x e) assignment to x  (4 a b) binary *)
+let rec ex_of (s : sx) : ex =
+  match s with
+  | L [A 0] -> Lit Z0
+  | L [A 1] -> This
+  | L [A 2; A x] -> Loc (nat_of_int x)
+  | L [A 3; A x; e] -> Asg (nat_of_int x, ex_of e)
+  | L [A 4; a; b'] -> Bin (ex_of a, ex_of b')
+  | _ -> failwith "ex"
+
+let decision (line : string) : string =
+  match String.split_on_char ' ' line with
+  | "dec-op" :: id :: rest ->
+      (match ex_of (parse (String.concat " " rest)) with
+       | Bin (a, b') -> id ^ "\t" ^ bs (snapshot_new a b')
+       | _ -> id ^ "\tbad")
+  | ["dec-upd"; id; loc; dst] ->
+      let code = postfix_code_new (nat_of_int (int_of_string loc)) (nat_of_int (int_of_string dst)) in
+      id ^ "\t" ^ String.concat ";" (List.map (function
+        | IMove (d, s) -> Printf.sprintf "Move %d %d" (int_of_nat d) (int_of_nat s)
+        | IInc (d, s) -> Printf.sprintf "Inc %d %d" (int_of_nat d) (int_of_nat s)) code)
+  | ["dec-hoist"; id; lhs_eff; is_do; under_with] ->
+      id ^ "\t" ^ bs (hoist_ok_new (lhs_eff <> "0") (is_do <> "0") (under_with <> "0"))
+  | _ -> "?\tbad"
+
 let () =
   try
     while true do
       let line = input_line stdin in
+      if String.length line > 4 && String.sub line 0 4 = "dec-" then print_endline (decision line) else
       if String.length line > 4 && String.sub line 0 4 = "run " then begin
         let rest = String.sub line 4 (String.length line - 4) in
         let sp1 = String.index rest ' ' in
@@ -109,9 +136,10 @@ let () =
           try
             let stmts = nodes (parse sx) in
             let r = run_report strict stmts in
+            let sem = sem_hyp strict stmts in
             let buf = Buffer.create 1024 in
             List.iteri (fun i s -> if i > 0 then Buffer.add_char buf ';'; print_scope buf i s) r.r_table;
-            Printf.sprintf "ok\t%s\t%s\t%s\t%s\t%s\t%s" (Buffer.contents buf) (bs r.r_honest) (bs r.r_wf) (bs r.r_ev_ok) (bs r.r_occ_ok) (bs r.r_reach_ok)
+            Printf.sprintf "ok\t%s\t%s\t%s\t%s\t%s\t%s\t%s" (Buffer.contents buf) (bs r.r_honest) (bs r.r_wf) (bs r.r_ev_ok) (bs r.r_occ_ok) (bs r.r_reach_ok) (bs sem)
           with
           | Stack_overflow -> "stackoverflow"
           | Failure m -> "badinput:" ^ m
